@@ -67,6 +67,12 @@ impl<T> Timer<T> {
         self.queue.remove(&timeout).is_some()
     }
 
+    // Verification hook: number of pending timers.
+    #[cfg(btdht_verif)]
+    pub fn verif_len(&self) -> usize {
+        self.queue.len() + usize::from(self.current.is_some())
+    }
+
     fn next_id(&mut self) -> u64 {
         let id = self.next_id;
         self.next_id = self.next_id.wrapping_add(1);
